@@ -360,6 +360,24 @@ func (l *litCtx) field(f dcField) string {
 	case "any":
 		return fmt.Sprint(k)
 	case "obj":
+		// a typed nil of a type that implements obj.Object through its generated DeepCopyObject: the copy must hold the same
+		// (typed) nil, not the plain nil interface
+		var impl []string
+		for i := range l.p.Types {
+			ty := &l.p.Types[i]
+			if !ty.Interfaces {
+				continue
+			}
+			switch ty.Kind {
+			case "struct":
+				impl = append(impl, "(*"+ty.Name+")(nil)")
+			case "map":
+				impl = append(impl, ty.Name+"(nil)")
+			}
+		}
+		if len(impl) > 0 && k%3 != 0 {
+			return impl[k%len(impl)]
+		}
 		return "nil"
 	case "iface":
 		return fmt.Sprintf("errT{Msg: %q}", fmt.Sprintf("i%d", k))
